@@ -18,6 +18,7 @@
 #include <asmjit/x86.h>
 #include <asmjit/x86/x86instdb_p.h>
 #include <asmjit/x86/x86instapi_p.h>
+#include <asmjit/x86/x86instapi.cpp>   // file-static rw_reg_group_byte_mask_table (the archive member is then not pulled in)
 #include <asmjit/a64.h>
 #include <asmjit/arm/a64instapi.cpp>   // file-static inst_rw_info_table (the archive member is then not pulled in)
 #include <cstdio>
@@ -39,6 +40,8 @@ static void dump() {
     OperandSignature s = RegUtils::signature_of(RegType(rt));
     printf("E %u %u %u\n", rt, uint32_t(s.reg_group()), s.size());
   }
+  for (uint32_t g = 0; g <= uint32_t(RegGroup::kMaxValue); g++)
+    printf("GM %u %" PRIu64 "\n", g, uint64_t(InstInternal::rw_reg_group_byte_mask_table[g]));
   printf("K kX86_ZMask %u\n", uint32_t(InstOptions::kX86_ZMask));
   printf("K kX86_ER %u\n", uint32_t(InstOptions::kX86_ER));
   printf("K kMovOp %u\n", uint32_t(InstRWFlags::kMovOp));
@@ -63,6 +66,7 @@ static void dump() {
   printf("K o_Vex %u\n", uint32_t(InstOptions::kX86_Vex));
   printf("K o_Vex3 %u\n", uint32_t(InstOptions::kX86_Vex3));
   printf("K kPreferEvex %u\n", uint32_t(InstDB::InstFlags::kPreferEvex));
+  printf("K kVexOrEvex %u\n", uint32_t(InstDB::InstFlags::kVex) | uint32_t(InstDB::InstFlags::kEvex));
   uint32_t maxA = 0, maxB = 0, maxAdd = 0;
   for (uint32_t i = 0; i < n; i++) {
     const InstDB::InstInfo& ii = InstDB::_inst_info_table[i];
@@ -387,6 +391,15 @@ int main(int argc, char** argv) {
       }
       snprintf(buf, sizeof buf, " zmask=%u er=%u movop=%u", uint32_t(InstOptions::kX86_ZMask), uint32_t(InstOptions::kX86_ER), uint32_t(InstRWFlags::kMovOp));
       s += buf;
+      char big[512];
+      snprintf(big, sizeof big, " R=%u W=%u RegMem=%u Consecutive=%u ZExt=%u RegPhysId=%u MemPhysId=%u MemBaseRead=%u MemBaseRW=%u MemIndexRead=%u MemIndexRW=%u"
+               " rmPextrw=%u rmMovssMovsd=%u rmFeatureIfRMI=%u implicitZ=%u idBad=%u",
+               uint32_t(OpRWFlags::kRead), uint32_t(OpRWFlags::kWrite), uint32_t(OpRWFlags::kRegMem), uint32_t(OpRWFlags::kConsecutive), uint32_t(OpRWFlags::kZExt),
+               uint32_t(OpRWFlags::kRegPhysId), uint32_t(OpRWFlags::kMemPhysId), uint32_t(OpRWFlags::kMemBaseRead), uint32_t(OpRWFlags::kMemBaseRW),
+               uint32_t(OpRWFlags::kMemIndexRead), uint32_t(OpRWFlags::kMemIndexRW), uint32_t(x86::InstDB::RWInfoRm::kFlagPextrw),
+               uint32_t(x86::InstDB::RWInfoRm::kFlagMovssMovsd), uint32_t(x86::InstDB::RWInfoRm::kFlagFeatureIfRMI),
+               uint32_t(x86::InstDB::Avx512Flags::kImplicitZ), uint32_t(Reg::kIdBad));
+      s += big;
       puts(s.c_str());
     }
     else if (k == "A") {
